@@ -110,6 +110,10 @@ def coerce_dtypes(df, dtypes):
             if is_float_dtype(actual) and is_integer_dtype(desired):
                 bad_dtypes.append((c, actual, desired))
             elif is_object_dtype(actual) and is_datetime64_any_dtype(desired):
+                if len(df) == 0:
+                    # A block without rows: there is no date that could be invalid
+                    df[c] = df[c].astype(desired)
+                    continue
                 # This can only occur when parse_dates is specified, but an
                 # invalid date is encountered. Pandas then silently falls back
                 # to object dtype. Since `object_array.astype(datetime)` will
